@@ -7,7 +7,7 @@ from checks import sim
 
 BINS = ["vh-sim"]
 MC_CFG = "SPECIFICATION MCSpec\nINVARIANT MCInv\nPROPERTY AllDelivered\nCHECK_DEADLOCK FALSE\n"
-TRACE_CFG = "INIT TraceInit\nNEXT TraceNext\nINVARIANT ContractHolds\nPOSTCONDITION TraceAccepted\nCHECK_DEADLOCK FALSE\n"
+TRACE_CFG = "INIT TraceInit\nNEXT TraceNext\nINVARIANT SoftContract\nPOSTCONDITION TraceAccepted\nCHECK_DEADLOCK FALSE\n"
 
 
 def is_hit(line):
